@@ -32,7 +32,7 @@ What is decided (all structurally, nothing under /repo is imported or run):
                  list (not only the matches the tree walk reported as removed); `WBS.__remove` removes from the current
                  node's children and recurses into every child.  `__remove` may hand the walk to a private helper of the class
                  (`return self.__remove_below(task, current)` behind the None pre-check, parameters in any order, recursion
-                 through either function); an iterative walk (`while stack:`) is UNDECIDED.
+                 through either function).
                  The walker is found from the call site: any package function / method called with the hidden root and one
                  match (`self.__remove(t, self.__root)`, a static method, a module-level `_remove_from_subtree(root, t)`), or
                  through the public `WBS.remove`.  A walker that receives ALL matches at once (`self.__prune({id(t) for t in
@@ -42,6 +42,14 @@ What is decided (all structurally, nothing under /repo is imported or run):
                  `return helper(<query>, <callback>)` is analysed with the helper's body spliced in (lambda and bound-method
                  callbacks beta-reduced); "no removal call" is refuted only when the function calls nothing the rule did not
                  follow.
+                 Round 5: an iterative walker (`pending = [current]; while pending: node = pending.pop(); if
+                 node.children.remove(task): return True; pending.extend(node.children)`, also deque / popleft / append in a
+                 for loop) is modelled: the work list starts as `[current]`, one node is taken per round, the removal is tried
+                 on that node's children and EVERY child is pushed (slice / filter / break in the pushing loop are refuted).
+                 Several queries, one per branch of a dispatch on `key`, all assigned to the same local, are judged one by one
+                 under their path condition: `self.tasks(**kwargs)` is fine where key is None, a branch that drops `**kwargs`
+                 or `key` is refuted (C18-r52); `self.tasks(id=key, **kwargs)` under `not callable(key)` is outside the
+                 property (key neither None nor callable) and is skipped.
 * remove_each    remove_all calls `self.remove(t)` once per match on ONE list object.  Every concrete `remove`
                  (_ChildrenList / _PredecessorsList / _SuccessorsList) rebuilds the owner's list and writes it through the owner's
                  property setter: the source of the rebuild must be current at every call - the owner's property read again
@@ -56,6 +64,14 @@ attribute + parent_id), all_filters 1 (the single return of __call__), result 3,
 bulk_assign 1, remove_all 9 (per variant: query, removal, "all returns" counted once so that merging returns is not an
 analysis error; WBS.tasks; two sites in WBS.__remove), remove_each 3.  A function end reachable without `return` counts as
 `return None`.
+
+Round 5: a local alias of the resolver bound once in `__call__` / `search` (`attribute_of = self.__get_task_attribute`) reads
+like the resolver; one-expression package helpers called in the filter branches (`_like(val, pattern)`) are replaced by their
+expression before the truth table is built (C18-r51: `_not_like_` as the plain negation of a None-safe `_like` lets None pass);
+remove_each also reads `setattr(owner, '<prop>', ..)` / `getattr(owner, '<prop>')` with the name given as a literal, a local
+or a class constant of the concrete list class (`_link_property`), and judges a `remove` inherited from a shared base class once
+per concrete class; a result built from `next(([t] for t in self._list if C), [])` (or with that on one side of a conditional
+expression) is refuted: only the first task with C is kept (C18-r53).
 
 Shapes followed since round 3: the attribute resolver is today's `__get_task_attribute` or - when that anchor is gone - the
 one package function `search` calls as `<fn>(<task>, <name>)` (moved to module level, to another class, nested in `__call__`);
@@ -398,6 +414,7 @@ class _Tables:
     def __init__(self, func):
         self.tables: Dict[str, Optional[Dict[str, ast.AST]]] = {}
         self.consts: Dict[str, Optional[ast.Constant]] = {}     # NAME = '<literal>' / NAME = 4, bound once
+        self.aliases: Dict[str, Optional[ast.AST]] = {}         # name = <attribute path / name>, bound once in an enclosing function
         self.imports = func.module.imports
         scopes = [func.module.tree.body]
         for st in func.module.tree.body:
@@ -409,6 +426,7 @@ class _Tables:
             p = p.parent
         for fn in chain:
             scopes.append([n for n in walk_no_nested(fn.node) if isinstance(n, (ast.Assign, ast.AnnAssign))])
+        enclosing = {id(b) for b in scopes[-len(chain) + 1:]} if len(chain) > 1 else set()
         for body in scopes:
             for st in body:
                 tgt = val = None
@@ -425,6 +443,10 @@ class _Tables:
                     self.consts[tgt.id] = None if tgt.id in self.consts else val
                 elif isinstance(tgt, ast.Name) and tgt.id in self.consts:
                     self.consts[tgt.id] = None
+                if isinstance(tgt, ast.Name) and id(body) in enclosing:
+                    # enclosing function scope: `alias = self.__getter` bound once (candidate alias of a function)
+                    ok = isinstance(val, (ast.Attribute, ast.Name)) and tgt.id not in self.aliases
+                    self.aliases[tgt.id] = val if ok else None
 
     def const_env(self, exclude=()) -> Dict[str, ast.AST]:
         """initial environment of the symbolic executor: named constants of the enclosing scopes (the function's own
@@ -559,6 +581,25 @@ def _whole(e: ast.AST, is_base, order_matters=False):
         if r == 'whole' and not (e.slice.lower is None and e.slice.upper is None and e.slice.step is None):
             return ('filtered', f"slice `{src(e)}` leaves elements out")
         return r
+    if isinstance(e, ast.IfExp):
+        # `A if c else B`: the whole collection only if both sides are
+        ra, rb = _whole(e.body, is_base, order_matters), _whole(e.orelse, is_base, order_matters)
+        for r in (ra, rb):
+            if isinstance(r, tuple):
+                return (r[0], r[1] + f" (on one side of `.. if {src(e.test)} else ..`)")
+        return 'whole' if ra == 'whole' and rb == 'whole' else None
+    if isinstance(e, ast.Call) and isinstance(e.func, ast.Name) and e.func.id == 'next' and e.args and not e.keywords \
+            and isinstance(e.args[0], (ast.GeneratorExp, ast.ListComp)) and len(e.args[0].generators) == 1:
+        # next(([t] for t in X if C), []): at most the FIRST element satisfying C
+        gen = e.args[0].generators[0]
+        elt = e.args[0].elt
+        one = isinstance(elt, (ast.List, ast.Tuple)) and len(elt.elts) == 1 and isinstance(gen.target, ast.Name) \
+            and match(gen.target.id, elt.elts[0])
+        if one and _whole(gen.iter, is_base, order_matters) == 'whole':
+            cond = ' and '.join(src(c) for c in gen.ifs) or 'True'
+            return ('filtered', f"`next(..)` keeps only the FIRST task with `{cond}`; every further task of the list satisfying it is "
+                                f"left out")
+        return None
     if isinstance(e, ast.Call) and isinstance(e.func, ast.Attribute) and e.func.attr == 'values' and not e.args and not e.keywords \
             and isinstance(e.func.value, ast.DictComp) and len(e.func.value.generators) == 1:
         # {K(t): t for t in X}.values(): one task per key
@@ -836,6 +877,52 @@ def _delegated_body(prog, f):
     return Func(qual=f.qual + '+' + g.name, name=f.name, node=new, module=f.module, cls=f.cls, kind=f.kind, parent=f.parent, prop=f.prop)
 
 
+def _inline_value_helpers(prog, f, stmts: List[ast.stmt], skip=()) -> List[ast.stmt]:
+    """copies of the statements with calls of one-expression package helpers (`def _like(val, pattern): return <expr>`;
+    module-level / imported functions and methods called on self) replaced by that expression over the arguments, so that
+    the symbolic executor sees the None test / comparison / regular-expression search the helper performs"""
+    def callee(n):
+        fn = n.func
+        if isinstance(fn, ast.Name):
+            g = prog.module_func(f.module.name, fn.id)
+            if g is None and fn.id in f.module.imports:
+                origin = prog.resolve_import(f.module, fn.id)
+                g = prog.funcs.get(origin) if origin else None
+            return g
+        if isinstance(fn, ast.Attribute) and isinstance(fn.value, ast.Name) and f.cls and \
+                (fn.value.id == f.self_name or fn.value.id == f.cls):
+            return prog.find_method(f.cls, unmangle(fn.attr))
+        return None
+
+    class T(ast.NodeTransformer):
+        depth = 0
+
+        def visit_Call(self, node):
+            self.generic_visit(node)
+            g = callee(node)
+            if g is None or g.qual in skip or self.depth > 3 or not isinstance(g.node, ast.FunctionDef):
+                return node
+            body = [st for st in g.node.body if not (isinstance(st, ast.Expr) and isinstance(st.value, ast.Constant))]
+            a = g.node.args
+            if len(body) != 1 or not isinstance(body[0], ast.Return) or body[0].value is None or a.vararg or a.kwarg or a.kwonlyargs:
+                return node
+            if any(isinstance(x, ast.Starred) for x in node.args) or any(k.arg is None for k in node.keywords):
+                return node
+            bound = facts.bound_args(node, g)
+            params = g.params[1:] if g.kind in ('method', 'classmethod') else g.params
+            if len(bound) != len(params) or any(b is None for b in bound):
+                return node
+            if names_in(body[0].value) & {g.params[0]} and g.kind == 'method':
+                return node              # uses its own self: not a pure function of the arguments
+            e = subst(body[0].value, dict(zip(params, bound)))
+            self.depth += 1
+            try:
+                return ast.copy_location(self.visit(e), node)
+            finally:
+                self.depth -= 1
+    return [ast.fix_missing_locations(T().visit(copy.deepcopy(st))) for st in stmts]
+
+
 RESOLVER_ANCHOR = 'task._ImmutableTaskList.__get_task_attribute'
 
 
@@ -918,8 +1005,14 @@ def _suffix_table(ctx):
             return env2
 
         tables = _Tables(f)
+        env_start = tables.const_env(exclude=f.params)
+        for nm, val in tables.aliases.items():
+            # `attribute_of = self.__get_task_attribute` in __call__: the alias reads like the resolver itself
+            last = val.attr if isinstance(val, ast.Attribute) else getattr(val, 'id', None)
+            if val is not None and nm not in f.params and last is not None and unmangle(last) == resolver.name:
+                env_start[nm] = val
         try:
-            outer = _run(f.body, tables.const_env(exclude=f.params), [], on_for)
+            outer = _run(f.body, env_start, [], on_for)
         except _Undecided as u:
             o.undecided(f, u.node, u.node, u.msg)
             return
@@ -964,7 +1057,7 @@ def _suffix_table(ctx):
         # ---- the loop body
         env_body = {k: v for k, v in env0.items() if k not in (key_v,) and not val_is(ast.Name(id=k, ctx=ast.Load()))}
         try:
-            paths = [p for p, _ in _run(loop.body, env_body, [], None)]
+            paths = [p for p, _ in _run(_inline_value_helpers(prog, f, loop.body, skip=(resolver.qual,)), env_body, [], None)]
         except _Undecided as u:
             o.undecided(f, u.node, u.node, u.msg)
             return
@@ -1802,62 +1895,110 @@ def _remove_all(ctx):
         if not qcalls:
             o.refute(f, f.node, 'query', "remove_all does not query the list with (key, **kwargs): the tasks to delete are not the matches")
             return
-        if len(qcalls) > 1:
-            o.undecided(f, qcalls[1].node, qcalls[1].node, "more than one query in remove_all")
-            return
-        q = qcalls[0].node
-        recv = q.func.value if isinstance(q.func, ast.Attribute) and q.func.attr == '__call__' else q.func
-        recv = alias(ex.expand(recv, cfg.node_containing(q)) if cfg.node_containing(q) is not None else recv)
-        if wbs:
-            if match(f"{SELF}.tasks", recv):
-                g = prog.func('wbs.WBS.tasks')
-                grets = [n for n in walk_no_nested(g.node) if isinstance(n, ast.Return)]
-                gv = Expander(prog, g, ctx.typer, inline=False).expand(grets[0].value) if len(grets) == 1 and grets[0].value is not None else None
-                if gv is not None and match(f"{g.params[0]}._WBS__root.all_children", gv):
-                    o.site(g, grets[0], "WBS.tasks = root.all_children")
-                elif gv is not None and match(f"{g.params[0]}._WBS__root.children", gv):
-                    o.refute(g, grets[0], grets[0], "WBS.tasks yields only the root tasks, not every task of the WBS")
-                    return
+        tasks_site = [False]
+
+        def check_query(q):
+            """one query call, judged under its path condition -> 'ok' | 'skip' (outside the property's domain) | None (reported)"""
+            conds = facts.node_conditions(prog, f, q, ctx.typer)
+
+            def implied(forms):
+                return any(match(pat, t) and pol == want for t, pol in conds for pat, want in forms)
+            key_none = implied([(f"{KEY} is None", True), (f"{KEY} is not None", False), (f"not {KEY}", True), (KEY, False)])
+            not_callable = implied([(f"callable({KEY})", False), (f"not callable({KEY})", True)])
+            recv = q.func.value if isinstance(q.func, ast.Attribute) and q.func.attr == '__call__' else q.func
+            recv = alias(ex.expand(recv, cfg.node_containing(q)) if cfg.node_containing(q) is not None else recv)
+            if wbs:
+                if match(f"{SELF}.tasks", recv):
+                    if not tasks_site[0]:
+                        g = prog.func('wbs.WBS.tasks')
+                        grets = [n for n in walk_no_nested(g.node) if isinstance(n, ast.Return)]
+                        gv = Expander(prog, g, ctx.typer, inline=False).expand(grets[0].value) \
+                            if len(grets) == 1 and grets[0].value is not None else None
+                        if gv is not None and match(f"{g.params[0]}._WBS__root.all_children", gv):
+                            o.site(g, grets[0], "WBS.tasks = root.all_children")
+                            tasks_site[0] = True
+                        elif gv is not None and match(f"{g.params[0]}._WBS__root.children", gv):
+                            o.refute(g, grets[0], grets[0], "WBS.tasks yields only the root tasks, not every task of the WBS")
+                            return None
+                        else:
+                            o.undecided(g, g.node, 'WBS.tasks', "WBS.tasks is not `self.__root.all_children`")
+                            return None
+                elif match(f"{SELF}.roots", recv) or match(f"{SELF}._WBS__root.children", recv):
+                    o.refute(f, q, q, f"`{src(q)}` searches only the root tasks; remove_all must search every task of the WBS (`self.tasks`)")
+                    return None
                 else:
-                    o.undecided(g, g.node, 'WBS.tasks', "WBS.tasks is not `self.__root.all_children`")
-                    return
-            elif match(f"{SELF}.roots", recv) or match(f"{SELF}._WBS__root.children", recv):
-                o.refute(f, q, q, f"`{src(q)}` searches only the root tasks; remove_all must search every task of the WBS (`self.tasks`)")
+                    o.undecided(f, q, q, "the WBS query is not `self.tasks(key, **kwargs)`")
+                    return None
+            elif not match(SELF, recv):
+                o.undecided(f, q, q, "the list query is not `self(key, **kwargs)`")
+                return None
+            cnq = cfg.node_containing(q)
+            kpos = [x for x in q.args if not isinstance(x, ast.Starred)]
+            knamed = {k.arg: k.value for k in q.keywords if k.arg}
+            kstar = [k.value for k in q.keywords if k.arg is None]
+            karg = kpos[0] if kpos else knamed.get('key')
+            extra_named = set(knamed) - {'key'}
+            if extra_named == {'id'} and karg is None and not_callable and not key_none and \
+                    match(KEY, ex.expand(knamed['id'], cnq) if cnq is not None else knamed['id']):
+                return 'skip'          # `key` as a plain task id (neither None nor callable): outside the property's statement
+            if karg is None and key_none and not kpos:
+                pass                   # `self.tasks(**kwargs)` on the path where key is None
+            elif karg is None or not (isinstance(ex.expand(karg), ast.Name) and ex.expand(karg).id == KEY) or len(kpos) > 1:
+                o.refute(f, q, q, f"`{src(q)}` does not pass the caller's `{KEY}` to the query: tasks the predicate rejects are removed too")
+                return None
+            kstar = [ex.expand(x, cnq) if cnq is not None else x for x in kstar]
+            if len(kstar) != 1 or not (isinstance(kstar[0], ast.Name) and kstar[0].id == KW) or extra_named:
+                o.refute(f, q, q, f"`{src(q)}` does not pass the caller's keyword filters `**{KW}` to the query: tasks the filters reject are "
+                                  f"removed too" + (f" (on the path where {', '.join(facts.cond_texts(conds))})" if conds and len(qcalls) > 1 else ''))
+                return None
+            o.site(f, q, f"matches = {src(q)}")
+            return 'ok'
+
+        if len(qcalls) > 1:
+            # one query per branch (dispatch on the kind of key): every one is `<same local> = <query>`
+            tgt_names = set()
+            for ci in qcalls:
+                cnq = cfg.node_containing(ci.node)
+                st = cnq.ast if cnq is not None else None
+                if isinstance(st, ast.Assign) and len(st.targets) == 1 and isinstance(st.targets[0], ast.Name) and st.value is ci.node:
+                    tgt_names.add(st.targets[0].id)
+                else:
+                    tgt_names.add(None)
+            others = [n for n in walk_no_nested(f.node) if isinstance(n, (ast.Assign, ast.AugAssign, ast.AnnAssign)) and any(
+                isinstance(x, ast.Name) and x.id in tgt_names for x in (n.targets if isinstance(n, ast.Assign) else [n.target]))
+                and getattr(n, 'value', None) not in [ci.node for ci in qcalls]]
+            if len(tgt_names) != 1 or None in tgt_names or others:
+                o.undecided(f, qcalls[1].node, qcalls[1].node, "more than one query in remove_all")
                 return
-            else:
-                o.undecided(f, q, q, "the WBS query is not `self.tasks(key, **kwargs)`")
+            results = [check_query(ci.node) for ci in qcalls]
+            if None in results or 'ok' not in results:
                 return
-        elif not match(SELF, recv):
-            o.undecided(f, q, q, "the list query is not `self(key, **kwargs)`")
-            return
-        kpos = [x for x in q.args if not isinstance(x, ast.Starred)]
-        knamed = {k.arg: k.value for k in q.keywords if k.arg}
-        kstar = [k.value for k in q.keywords if k.arg is None]
-        karg = kpos[0] if kpos else knamed.get('key')
-        if karg is None or not (isinstance(ex.expand(karg), ast.Name) and ex.expand(karg).id == KEY) or len(kpos) > 1:
-            o.refute(f, q, q, f"`{src(q)}` does not pass the caller's `{KEY}` to the query: tasks the predicate rejects are removed too")
-            return
-        kstar = [ex.expand(x, cfg.node_containing(q)) if cfg.node_containing(q) is not None else x for x in kstar]
-        if len(kstar) != 1 or not (isinstance(kstar[0], ast.Name) and kstar[0].id == KW) or set(knamed) - {'key'}:
-            o.refute(f, q, q, f"`{src(q)}` does not pass the caller's keyword filters `**{KW}` to the query: tasks the filters reject are "
-                              f"removed too")
-            return
-        MATCH = ex.expand(q)
-        o.site(f, q, f"matches = {src(q)}")
+            q = next(ci.node for ci, r in zip(qcalls, results) if r == 'ok')
+            MATCH = ast.Name(id=next(iter(tgt_names)), ctx=ast.Load())
+        else:
+            q = qcalls[0].node
+            if check_query(q) != 'ok':
+                return
+            MATCH = ex.expand(q)
+        recv = q.func
+
+        # what the Expander turns the match list into where it is used (a two-way dispatch is joined into `A if c else B`)
+        MATCHES = [MATCH]
+        if isinstance(MATCH, ast.Name):
+            for n in walk_no_nested(f.node):
+                if isinstance(n, ast.Name) and n.id == MATCH.id and isinstance(n.ctx, ast.Load) and cfg.node_containing(n) is not None:
+                    alt = ex.expand(n, cfg.node_containing(n))
+                    if not any(same(alt, m) for m in MATCHES):
+                        MATCHES.append(alt)
 
         def is_match(e):
-            return same(e, MATCH)
+            return any(same(e, m) for m in MATCHES)
 
         def only_about_match(t):
             """condition mentions nothing but the match list (emptiness tests)"""
             class R(ast.NodeTransformer):
-                def generic_visit(self, n):
-                    if isinstance(n, ast.AST) and same(n, MATCH):
-                        return ast.Constant(value=0)
-                    return super().generic_visit(n)
-
                 def visit(self, n):
-                    if same(n, MATCH):
+                    if is_match(n):
                         return ast.Constant(value=0)
                     return super().visit(n)
             left = R().visit(copy.deepcopy(t))
@@ -2035,8 +2176,13 @@ def _remove_all(ctx):
                             (match("len($m) == 0", t) and is_match(match("len($m) == 0", t)['m']) and pol) or \
                             (match("len($m) > 0", t) and is_match(match("len($m) > 0", t)['m']) and not pol):
                         ok = True
+                raw = facts.node_conditions(prog, f, r, ctx.typer, expand=False)
                 if ok:
                     good_returns.append(r)
+                elif any(names_in(t) - set(f.params) - {'len', 'bool', 'callable', 'isinstance'} for t, _ in raw):
+                    # guarded by a test on a local this rule could not identify with the match list
+                    o.undecided(f, r, r, "remove_all returns an empty list under a condition the rule does not understand (" +
+                                ', '.join(facts.cond_texts(raw)) + ")")
                 else:
                     o.refute(f, r, r, "remove_all returns an empty list although tasks may have matched (and been removed)")
                 continue
@@ -2167,6 +2313,122 @@ def _remove_all(ctx):
                 continue
             o.site(f, c, f"{src(c)} for every remaining child")
 
+    def iterative_walk(o, f, TASK, CUR, cfg, ex):
+        """the walk with an explicit work list instead of recursion:
+               pending = [current]
+               while pending:
+                   node = pending.pop()
+                   if node.children.remove(task): return True
+                   pending.extend(node.children)            # every child, any order
+        """
+        loop = next(n for n in walk_no_nested(f.node) if isinstance(n, ast.While))
+        t = loop.test
+        m = None
+        for pat in ("$w", "len($w) > 0", "len($w) != 0", "len($w)", "$w != []", "len($w) >= 1", "bool($w)"):
+            m = match(pat, t)
+            if m and isinstance(m['w'], ast.Name):
+                break
+            m = None
+        if m is None or loop.orelse:
+            o.undecided(f, loop, loop.test, f"`while {src(loop.test)}`: not a loop over a work list of tasks still to visit")
+            return
+        W = m['w'].id
+        inits = [n for n in walk_no_nested(f.node) if isinstance(n, (ast.Assign, ast.AnnAssign)) and any(
+            isinstance(x, ast.Name) and x.id == W for x in (n.targets if isinstance(n, ast.Assign) else [n.target]))]
+        init_ok = len(inits) == 1 and inits[0].value is not None and not any(x is inits[0] for st in loop.body for x in ast.walk(st))
+        if init_ok:
+            iv = inits[0].value
+            if isinstance(iv, ast.Call) and getattr(iv.func, 'id', getattr(iv.func, 'attr', '')) in ('deque', 'list') and len(iv.args) == 1:
+                iv = iv.args[0]
+            init_ok = isinstance(iv, (ast.List, ast.Tuple)) and len(iv.elts) == 1 and match(CUR, iv.elts[0])
+        if not init_ok:
+            o.undecided(f, inits[0] if inits else loop, inits[0] if inits else W, f"the work list `{W}` does not start as `[{CUR}]`")
+            return
+        body_nodes, _seen = [], set()
+        for x in [y for st in loop.body for y in walk_no_nested(st)] + list(loop.body):
+            if id(x) not in _seen:
+                _seen.add(id(x))
+                body_nodes.append(x)
+        pops = [n for n in body_nodes if isinstance(n, ast.Assign) and len(n.targets) == 1 and isinstance(n.targets[0], ast.Name)
+                and isinstance(n.value, ast.Call) and isinstance(n.value.func, ast.Attribute) and match(W, n.value.func.value)
+                and n.value.func.attr in ('pop', 'popleft')]
+        if len(pops) != 1 or pops[0] not in loop.body:
+            o.undecided(f, loop, loop, f"the loop does not take exactly one task from `{W}` per round (`node = {W}.pop()`)")
+            return
+        N = pops[0].targets[0].id
+
+        def is_children(e):
+            return bool(match(f"{N}.children", e) or match(f"{N}._Task__children", e))
+
+        def is_direct(c):
+            if not (isinstance(c, ast.Call) and isinstance(c.func, ast.Attribute) and c.func.attr == 'remove' and len(c.args) == 1
+                    and not c.keywords and match(TASK, c.args[0])):
+                return False
+            cn = cfg.node_containing(c)
+            return is_children(ex.expand(c.func.value, cn, stop={N}) if cn is not None else c.func.value)
+
+        in_loop = {id(x) for x in body_nodes}
+        direct = [c for c in facts.calls_named(f, 'remove') if id(c) in in_loop and is_direct(c)]
+        others = [c for c in facts.calls_named(f, 'remove') if not is_direct(c)]
+        if direct:
+            o.site(f, direct[0], src(direct[0]))
+        elif others:
+            o.undecided(f, others[0], others[0], f"`{src(others[0])}` is not recognised as `{N}.children.remove({TASK})`")
+        else:
+            o.refute(f, f.node, 'children.remove', f"the tree walk never removes the task from the visited node's children "
+                                                   f"(`{N}.children.remove({TASK})` missing)")
+        # ---- every child of the visited node goes onto the work list
+        pushes = []          # (node, pushed collection, loop that binds a single pushed child or None)
+        for n in body_nodes:
+            if isinstance(n, ast.Call) and isinstance(n.func, ast.Attribute) and match(W, n.func.value) and n.args:
+                if n.func.attr in ('extend', 'extendleft') and len(n.args) == 1:
+                    pushes.append((n, n.args[0], None))
+                elif n.func.attr in ('append', 'appendleft', 'insert') and isinstance(n.args[-1], ast.Name):
+                    fo = _enclosing_for(f, n, n.args[-1].id)
+                    if fo is not None and any(x is fo for x in body_nodes):
+                        pushes.append((n, fo.iter, fo))
+                    else:
+                        pushes.append((n, None, None))
+            elif isinstance(n, ast.AugAssign) and isinstance(n.op, ast.Add) and match(W, n.target):
+                pushes.append((n, n.value, None))
+        if not pushes:
+            o.undecided(f, loop, 'descent', f"no statement of the loop puts the children of `{N}` onto `{W}`")
+            return
+        for n, coll, fo in pushes:
+            cn = cfg.node_containing(n) or cfg.node_of(n)
+            if coll is None or cn is None:
+                o.undecided(f, n, n, f"`{src(n)}` is not understood as pushing the children of `{N}`")
+                continue
+            it = ex.expand(coll, cfg.node_of(fo) if fo is not None else cn, stop={N})
+            w = _whole(it, is_children)
+            if w is None:
+                o.undecided(f, n, it, f"`{src(n)[:80]}` does not push `{N}.children`")
+                continue
+            if w != 'whole':
+                o.refute(f, n, it, f"the tree walk skips subtrees: {w[1]}")
+                continue
+            if fo is not None and _loop_exits(fo):
+                ex0 = _loop_exits(fo)[0]
+                o.refute(f, ex0, ex0, f"`{src(ex0)}` inside the loop that pushes the children: the walk skips the remaining subtrees")
+                continue
+            bad = []
+            for c_raw, c_p0 in facts.node_conditions(prog, f, n, ctx.typer, expand=False):
+                c_x = ex.expand(c_raw, cfg.node_containing(c_raw), stop={N, W}) if cfg.node_containing(c_raw) is not None else c_raw
+                for c_t, c_p in facts.split_conj(c_x, c_p0):
+                    if same(c_t, loop.test) or (match(W, c_t) and c_p):
+                        continue
+                    if any(is_direct_text(x) for x in ast.walk(c_t)) and not (names_in(c_t) - {N, TASK}) and not c_p:
+                        continue
+                    if match(f"{TASK} is None", c_t) and not c_p:
+                        continue
+                    if match(f"len({W}) > 0", c_t) or match(f"len({W})", c_t) or match(f"len({W}) != 0", c_t):
+                        continue
+                    bad.append((c_t, c_p))
+            if bad:
+                o.undecided(f, n, n, "the descent is conditional: " + ', '.join(facts.cond_texts(bad)))
+                continue
+            o.site(f, n, f"while {W}: {N} = {W}.pop(); ..; {src(n)[:70]}")
+
     def tree_walk(o):
         start = None
         if walkers:
@@ -2250,6 +2512,10 @@ def _remove_all(ctx):
             cn = cfg.node_containing(c)
             return is_children(ex.expand(c.func.value, cn) if cn is not None else c.func.value)
 
+        if not any(g.name in by_name for _, g in self_calls(f)) and \
+                sum(isinstance(n, ast.While) for n in walk_no_nested(f.node)) == 1:
+            iterative_walk(o, f, TASK, CUR, cfg, ex)
+            return
         all_removes = [c for c in facts.calls_named(f, 'remove')]
         direct = [c for c in all_removes if is_direct(c)]
         if direct:
@@ -2418,6 +2684,48 @@ def _remove_each(ctx):
                   if v is not None and not (isinstance(t.value, ast.Name) and t.value.id == SELF)
                   and prog.find_setter('Task', t.attr) is not None
                   and ctx.typer.expr_type(t.value, f) in ('Task', None)]
+
+        def class_const(attr):
+            """class-level `attr = <constant>` of the concrete list class (first in its MRO) -> Constant node"""
+            for c in prog.mro(ci.name):
+                for st in c.node.body:
+                    tg = st.targets[0] if isinstance(st, ast.Assign) and len(st.targets) == 1 else \
+                        (st.target if isinstance(st, ast.AnnAssign) else None)
+                    if isinstance(tg, ast.Name) and tg.id == attr and isinstance(getattr(st, 'value', None), ast.Constant):
+                        return st.value
+            return None
+
+        def prop_name(e, at):
+            """property name given to getattr / setattr: a literal, a local bound to one, or `self.<class constant>`"""
+            e = ex.expand(e, at) if at is not None else e
+            if isinstance(e, ast.Attribute) and isinstance(e.value, ast.Name) and e.value.id == SELF:
+                e = class_const(e.attr) or e
+            return e.value if isinstance(e, ast.Constant) else e
+
+        abstract = [False]
+
+        class Dyn(ast.NodeTransformer):
+            """getattr(X, '<name>') -> X.<name>"""
+            def visit_Call(self, node):
+                self.generic_visit(node)
+                if isinstance(node.func, ast.Name) and node.func.id == 'getattr' and len(node.args) in (2, 3) and not node.keywords:
+                    nm = prop_name(node.args[1], None)
+                    if isinstance(nm, str):
+                        return ast.copy_location(ast.Attribute(value=node.args[0], attr=nm, ctx=ast.Load()), node)
+                return node
+
+        # setattr(<owner>, <property name>, <new list>): the same store written by name
+        for n in walk_no_nested(f.node):
+            if isinstance(n, ast.Call) and isinstance(n.func, ast.Name) and n.func.id == 'setattr' and len(n.args) == 3 and not n.keywords \
+                    and not (isinstance(n.args[0], ast.Name) and n.args[0].id == SELF) and cfg.node_containing(n) is not None:
+                nm = prop_name(n.args[1], cfg.node_containing(n))
+                if nm is None and prog.subclasses(ci.name):
+                    abstract[0] = True          # `_link_property = None` in a shared base class: judged in the concrete classes
+                elif isinstance(nm, str) and prog.find_setter('Task', nm) is not None:
+                    tgt = ast.copy_location(ast.Attribute(value=n.args[0], attr=nm, ctx=ast.Store()), n)
+                    stores.append((cfg.node_containing(n).ast, tgt, n.args[2]))
+        if abstract[0] and not stores:
+            return
         if not stores:
             # in-place removal from the wrapper's list: the same object at every call, and no setter runs in between
             inplace = [n for n in walk_no_nested(f.node) if isinstance(n, ast.Call) and isinstance(n.func, ast.Attribute)
@@ -2432,7 +2740,7 @@ def _remove_each(ctx):
         for node, tgt, val in stores:
             P = tgt.attr
             cn = cfg.node_of(node)
-            v = ex.expand(val, cn)
+            v = ast.fix_missing_locations(Dyn().visit(ex.expand(val, cn)))
             parts = facts.comp_parts(v) if isinstance(v, (ast.ListComp, ast.GeneratorExp)) else None
             if parts is None and isinstance(v, ast.Call) and isinstance(v.func, ast.Name) and v.func.id in ('list', 'tuple') \
                     and len(v.args) == 1:
@@ -2480,8 +2788,8 @@ def _remove_each(ctx):
 
     def body(o):
         for ci in sorted(prog.subclasses('_TaskList'), key=lambda c: c.name):
-            f = ci.methods.get('remove')
-            if f is not None:
+            f = prog.find_method(ci.name, 'remove')           # own or inherited from a shared base (e.g. a _LinkList)
+            if f is not None and f.cls != '_TaskList':
                 one(o, ci, f)
 
     ctx.guarded(o, body)
